@@ -23,12 +23,13 @@ var knownNames = []string{
 	"WARC-Warcinfo-ID", "WARC-Page-ID", "WARC-Resource-Type", "WARC-JSON-Metadata",
 }
 var unknownNames = []string{"x-foo", "x-foo-bar", "a", "b", "zz-top", "x_y.z", "name1", "a-", "-a", "9-lives"}
-var oddNames = []string{"", "a b", "na:me", "x(y)", "é", "warc-Key", "content‐type", "\xff\xfe", "WARC-TYPEİ"}
+var oddNames = []string{"", "a b", "Crawl Operator", "user@host", "q(1)", "na:me", "x(y)", "é", "warc-Key", "content‐type", "\xff\xfe", "WARC-TYPEİ"}
 
 func genName(r *rand.Rand, pool []string) string {
 	switch x := r.Intn(20); {
-	case x < 1:
-		return pick(r, oddNames)
+	case x < 2:
+		// names that are no header tokens are their own canonical form, letter case included
+		return randCase(r, pick(r, oddNames))
 	case x < 3:
 		return randCase(r, pick(r, knownNames))
 	default:
